@@ -48,6 +48,10 @@ CLAIMED["C20"] = ("One operation (17 kinds, arguments from the pools, values sym
                   "same object for the same address, growth only on an auto-creating look-up of an unseen address, patches change exactly the named fields/attrs of the matched "
                   "record (frame condition on every other record), representation invariant preserved (so the step composes to histories of any length); plus all histories "
                   "of depth 2 (3 in thorough) from the empty storage.", "6/C20")
+CLAIMED["C17"] = ("One handler step from an arbitrary state (connected flag, 16-bit counter, registry over a pool) on structured datagrams with all six type bits, sn, option data "
+                  "and payload fields symbolic and on fully symbolic raw datagrams of 0..10 octets: never raises; connect/close/data answered by exactly one ack with the same sn "
+                  "and no payload; ack-bit datagrams never acknowledged or echoed; heartbeat echoed iff connected; connected flag and registry updates; registration answer with "
+                  "incremented 16-bit sn. Two handlers back to back fall silent within 4 rounds (heartbeat echoes excepted). All histories of depth 3 over 8 message classes.", "6/C17")
 NOT_YET = {}
 props = [json.loads(l) for l in open(os.path.join(V, "properties.jsonl"))]
 checks = []
